@@ -212,6 +212,32 @@ def fetchIntervalChecked (file : Bytes) (r : IdxRow) (a b : Nat) : Option Bytes 
   let idxs := newlineIdxs r a b
   deleteChecked raw (if idxs.getLast? = some raw.length then idxs.dropLast else idxs)
 
+/-- `pre_alloc[off : off + len(piece)] = piece` -/
+def writeAt (buf : Bytes) (off : Nat) (piece : Bytes) : Bytes :=
+  buf.take off ++ piece ++ buf.drop (off + piece.length)
+
+/-- the pieces written one after the other at the offsets `cumsum(lengths)` -/
+def fillPieces (buf : Bytes) (off : Nat) : List (Bytes × Nat) → Bytes
+  | [] => buf
+  | (p, l) :: r => fillPieces (writeAt buf off p) (off + l) r
+
+/-- one interval given by contig name: row looked up in the index (`none` = KeyError), then the checked read -/
+def fetchNamed (file : Bytes) (idx : List IdxRow) (q : Bytes × Nat × Nat) : Option Bytes :=
+  match lookup idx q.1 with
+  | some r => fetchIntervalChecked file r q.2.1 q.2.2
+  | none => none
+
+/-- `get_interval_sequences(intervals)` for ANY list of intervals: per interval the row is looked up
+by name and the bytes are read and cleaned (with NumPy's bounds check); the cleaned pieces are written
+into one pre-allocated flat buffer at the offsets `cumsum(stop − start)` and the buffer is re-wrapped
+as a ragged array with row lengths `stop − start` (`none` = KeyError / IndexError) -/
+def getIntervalSequences (file : Bytes) (idx : List IdxRow) (ivs : List (Bytes × Nat × Nat)) : Option (List Bytes) :=
+  match Base.omap (fetchNamed file idx) ivs with
+  | none => none
+  | some pieces =>
+    let lens := ivs.map (fun q => q.2.2 - q.2.1)
+    some (C18.unflatten lens (fillPieces (List.replicate lens.sum 0) 0 (pieces.zip lens)))
+
 /-- `get_interval_sequences` for one interval `[a, b)` (both code paths use this arithmetic) -/
 def fetchInterval (file : Bytes) (r : IdxRow) (a b : Nat) : Bytes :=
   let startRow := a / r.lenc
